@@ -290,6 +290,13 @@ def snapText (st : St) (k : Nat) (m : Mach F) : String :=
     else ""
   base ++ q ++ hist ++ plans ++ rep
 
+/-- `key=value` fields of a snapshot line -/
+def snapFields (s : String) : List (String × String) :=
+  (words s).filterMap (fun t =>
+    match t.splitOn "=" with
+    | k :: v :: rest => some (k, "=".intercalate (v :: rest))
+    | _ => none)
+
 /-! ### running one operation -/
 
 def bitsOfString (s : String) : List Bool := s.toList.map (· = '1')
@@ -431,8 +438,25 @@ def step (st : St) (line : String) : St × Option String :=
       | none => (st, some "snap of a missing instance")
       | some m =>
         let mine := snapText st k m
-        if mine = " ".intercalate (words line) then (st, none)
-        else (st, some s!"snap after={st.lastOp} expected(model)={mine.replace " " "_"}")
+        let theirs := " ".intercalate (words line)
+        if mine = theirs then (st, none) else
+        let fa := snapFields mine
+        let fb := snapFields theirs
+        let diff := (fa.filter (fun kv => fb.lookup kv.1 != some kv.2)).map (·.1)
+        let msg := s!"snap after={st.lastOp} expected(model)={mine.replace " " "_"}"
+        if diff = ["L"] then
+          -- only `lastTransitionTo` differs: report it, adopt the implementation's pins and go on with the
+          -- scenario, so that what the difference leads to is seen as well (SOFT = the caller does not skip)
+          let implL := (((fb.lookup "L").getD "").splitOn ",").map (fun x => x.toNat?)
+          let tg := (List.range m.w.cfg.stateCount).map (fun i =>
+            match implL.getD i none with
+            | some j => some j
+            | none =>
+              match m.w.targets.getD i none with
+              | some j => if m.root.machineActive && j < m.w.previous.length then none else some j
+              | none => none)
+          (st.setInst k (some { m with w := { m.w with targets := tg } }), some ("SOFT " ++ msg))
+        else (st, some msg)
   | _ => (st, some "unknown line")
 
 def replayer : Replayer := { State := St, init := {}, step := step }
